@@ -206,6 +206,8 @@ pub fn preprocess_str<T: AsRef<Path>, U: AsRef<Path>, V: BuildHasher>(
 ) -> Result<(PreprocessedText, Defines), Error> {
 
     // IEEE1800-2017 Clause 22.4, page 675
+    #[cfg(feature = "verif")]
+    sv_parser_parser::verif::point("pp_enter");
     // A file included in the source using the `include compiler directive
     // may contain other `include compiler directives.
     // The number of nesting levels for include files shall be finite.
@@ -278,6 +280,8 @@ pub fn preprocess_str<T: AsRef<Path>, U: AsRef<Path>, V: BuildHasher>(
     let mut ret = PreprocessedText::new();
 
     for n in pp_text.into_iter().event() {
+        #[cfg(feature = "verif")]
+        sv_parser_parser::verif::point("pp_event");
         match n.clone() {
             NodeEvent::Enter(x) => {
                 if skip_nodes.contains(&x) {
@@ -679,6 +683,8 @@ pub fn preprocess_str<T: AsRef<Path>, U: AsRef<Path>, V: BuildHasher>(
                 //
                 // In this implementation, filenames enclosed in angle brackets are
                 // treated equivalently to those enclosed in double quotes.
+                #[cfg(feature = "verif")]
+                sv_parser_parser::verif::point("pp_include_search");
                 if path.is_relative() && !path.exists() {
                     for include_path in include_paths {
                         let new_path = include_path.as_ref().join(&path);
@@ -929,6 +935,8 @@ fn resolve_text_macro_usage<T: AsRef<Path>, U: AsRef<Path>>(
     let (_, ref name, ref args) = x.nodes;
     let id = identifier((&name.nodes.0).into(), &s).unwrap();
 
+    #[cfg(feature = "verif")]
+    sv_parser_parser::verif::point("pp_resolve");
     if resolve_depth > RECURSIVE_LIMIT {
         return Err(Error::ExceedRecursiveLimit);
     }
